@@ -32,9 +32,10 @@ def run_spec(V, label, c, next_, invs, emit=None, coverage=False):
         E.cleanup(wd)
 
 
-def consts(D, W, items, weights, maxlen, bound=2, dev=False, cellonce=False):
+def consts(D, W, items, weights, maxlen, bound=2, dev=False, cellonce=False, lookup_inserts=False):
     return {'D': D, 'W': W, 'Items': '{' + ','.join(map(str, range(1, items + 1))) + '}', 'Weights': weights, 'MaxLen': maxlen, 'Bound': bound,
-            'QueryOtherHash': 'TRUE' if dev else 'FALSE', 'BatchCellOnce': 'TRUE' if cellonce else 'FALSE'}
+            'QueryOtherHash': 'TRUE' if dev else 'FALSE', 'BatchCellOnce': 'TRUE' if cellonce else 'FALSE',
+            'LookupInserts': 'TRUE' if lookup_inserts else 'FALSE'}
 
 
 def main():
@@ -89,20 +90,29 @@ def main():
                                       'controls: the hypothesis is satisfiable with non-trivial values, and the BatchCellOnce deviation breaks the inductive step.  steps run: ' + ', '.join(s_[0] for s_ in steps))
 
     # bounded counter: model + replay
+    # deviation control: look-ups that create entries must break the counter's exactness (the Lookup step is not vacuous)
+    r_l, _ = run_spec(E.Verdict(PID, tier, seed), 'Counter/deviation-lookup', consts(1, 1, 3, '{1}', 4, bound=2, lookup_inserts=True), 'NextCounter',
+                      ['NeverOverCounts', 'ExactBelowBound', 'AtMostBoundKeys'], emit=None)
+    if r_l.violated != 'ExactBelowBound':
+        raise E.MachineryError(f'deviation control LookupInserts did not violate ExactBelowBound ({r_l.violated})')
+    V.notes['deviation_control_lookup'] = 'LookupInserts=TRUE (a look-up creates a zero entry) violates ExactBelowBound'
     for bound in (1, 2, 3):
         res, cases = run_spec(V, f'Counter/bound{bound}', consts(1, 1, 4, '{1}', 5 if tier == 'quick' else 6, bound=bound), 'NextCounter',
                               ['NeverOverCounts', 'ExactBelowBound', 'AtMostBoundKeys'], emit='EmitCounter')
         if not cases:
             raise E.MachineryError('no counter cases')
         names = {1: 'a', 2: '', 3: 'é', 4: '7'}
-        jobs = [{'op': 'counter_replay', 'bound': bound, 'histories': [[names[i] for i in c['hist']] for c in cases]}]
-        got = PC.pipe_eval(jobs, modules=['sketch_ops'])[0]
-        if got is None or 'ok' not in got:
-            V.violation(f'raises:counter-bound{bound}', f'PrimitiveConstrainedCounter failed: {PC.failure_text(got)}', jobs[0]['histories'][:3])
+        jobs = [{'op': 'counter_replay', 'bound': bound, 'histories': [[names[i] for i in c['hist']] for c in cases]},
+                {'op': 'counter_replay', 'bound': bound, 'probe': True, 'histories': [[names[i] for i in c['hist']] for c in cases]}]
+        got, got_p = PC.pipe_eval(jobs, modules=['sketch_ops'])
+        if got is None or 'ok' not in got or got_p is None or 'ok' not in got_p:
+            V.violation(f'raises:counter-bound{bound}', f'PrimitiveConstrainedCounter failed: {PC.failure_text(got if got is None or "ok" not in got else got_p)}', jobs[0]['histories'][:3])
             continue
         nontriv = 0
         drift = 0
-        for c, ob in zip(cases, got['ok']):
+        # second pass: the same streams with look-ups of running counts between the adds (Counter.tla Lookup: a stuttering step);
+        # entries with a positive count are judged
+        for c, ob in list(zip(cases, got['ok'])) + list(zip(cases, got_p['ok'])):
             hist = [names[i] for i in c['hist']]
             true = {}
             for v in hist:
